@@ -102,6 +102,9 @@ type loopInfo struct {
 	body    map[int]bool
 	ordinal int
 	pos     token.Pos
+	// loop frame support: state at the header of an arbitrary iteration and the heap keys the body writes
+	headerState *State
+	written     map[string]bool
 }
 
 type Enc struct {
